@@ -169,6 +169,149 @@ static JV run_pair(const Plan &a) {
 
 static JV run_once(const Plan &p) { if (p.profile == "c09") return run_pair(p); return run_single(p); }
 
+// ------------------------------------------------------------------ C20: crash points and file-system faults of every password change
+struct C20Acc { JV viol = JV::arr(); long images = 0, reloads = 0, fault_runs = 0, crash_points = 0, torn = 0, powerloss = 0, faults_fired = 0; std::set<std::string> traces; std::map<std::string, long> ops; };
+
+static JV c20_sets(const Plan &base, const JV &changes, std::vector<std::pair<std::string, std::string>> &probes, std::vector<std::map<std::string, std::string>> &sets) {
+	// S_0 = the file as generated; S_j = S_{j-1} with change j (if it was applied)
+	std::map<std::string, std::string> cur; std::map<std::string, std::set<std::string>> cand;
+	const JV *users = base.hdr.get("creds") ? base.hdr.get("creds")->get("users") : nullptr;
+	if (users) for (auto &kv : users->o) { if (kv.second.has("password") && !kv.second.getb("noauth")) { cur[kv.first] = kv.second.gets("password"); cand[kv.first].insert(kv.second.gets("password")); } }
+	sets.clear(); sets.push_back(cur);
+	for (auto &c : changes.a) {
+		if (cur.count(c.gets("user"))) { cand[c.gets("user")].insert(c.gets("new")); cand[c.gets("user")].insert(c.gets("old")); }
+		if (c.getb("applied") && cur.count(c.gets("user"))) cur[c.gets("user")] = c.gets("new");
+		sets.push_back(cur);
+	}
+	probes.clear();
+	for (auto &kv : cand) for (auto &pw : kv.second) probes.emplace_back(kv.first, pw);
+	return JV();
+}
+
+static JV c20_vec(const std::vector<std::pair<std::string, std::string>> &probes, const std::map<std::string, std::string> &setv) {
+	JV a = JV::arr();
+	for (auto &p : probes) { auto it = setv.find(p.first); a.push(JV::boolean(it != setv.end() && it->second == p.second)); }
+	return a;
+}
+
+static Plan c20_reload_plan(const Plan &base, const std::string &image, bool exists, const std::vector<std::pair<std::string, std::string>> &probes, const JV &allowed, const std::string &what, const std::string &rule) {
+	Plan p; p.profile = "c20r"; p.seed = base.seed;
+	JV h = JV::obj(); h.set("mode", JV::str("none")); h.set("fill", JV::num(base.hdr.getd("fill", 0))); h.set("canary", JV::boolean(false)); h.set("end", JV::str("close")); h.set("expect_exit", JV::str("any"));
+	h.set("memprop", JV::str("C20")); h.set("baseprop", JV::str("C20")); h.set("canary_prop", JV::str("C20"));
+	JV cr = JV::obj(); cr.set("path", JV::str("/etc/cjet/passwd.json")); cr.set("rawhex", JV::str(hexenc(image))); if (!exists) cr.set("absent", JV::boolean(true)); h.set("creds", cr);
+	JV argv = JV::arr(); argv.push(JV::str("-f")); argv.push(JV::str("-p")); argv.push(JV::str("/etc/cjet/passwd.json")); h.set("argv", argv);
+	JV rl = JV::obj(); JV pr = JV::arr(); for (auto &x : probes) { JV o = JV::obj(); o.set("user", JV::str(x.first)); o.set("password", JV::str(x.second)); pr.push(o); }
+	rl.set("probes", pr); rl.set("allowed", allowed); rl.set("what", JV::str(what)); rl.set("rule", JV::str(rule)); h.set("reload", rl);
+	p.hdr = h;
+	Op c; c.k = "connect"; c.c = 0; c.uid = 1; c.a.set("tr", JV::str("raw")); c.a.set("noexpect", JV::boolean(true)); p.ops.push_back(c);
+	uint64_t uid = 2;
+	for (size_t i = 0; i < probes.size(); i++) {
+		Op s2; s2.k = "send"; s2.c = 0; s2.uid = uid++;
+		JV q = JV::obj(); q.set("id", JV::str("p" + std::to_string(i))); q.set("method", JV::str("authenticate")); JV pp = JV::obj(); pp.set("user", JV::str(probes[i].first)); pp.set("password", JV::str(probes[i].second)); q.set("params", pp);
+		s2.a.set("msg", q); p.ops.push_back(s2);
+	}
+	return p;
+}
+
+static std::string write_replay(const Plan &p, const JV &result, const std::string &sig);
+static JV run_once(const Plan &p);
+static std::string sig_of(const JV &r);
+
+// check every image the credential file went through in one execution (r: its result with extra.file_log / extra.changes)
+static void c20_check_images(const Plan &base, const JV &r, const std::string &ctx, C20Acc &acc, std::map<std::string, std::string> &verdict_cache) {
+	const JV *ex = r.get("extra"); if (!ex) return;
+	const JV *log = ex->get("file_log"), *changes = ex->get("changes"); if (!log || !changes) return;
+	std::vector<std::pair<std::string, std::string>> probes; std::vector<std::map<std::string, std::string>> sets;
+	c20_sets(base, *changes, probes, sets);
+	for (size_t i = 1; i < log->a.size(); i++) {
+		const JV &e = log->a[i];
+		int c = (int)e.getd("change");
+		if (c < 1 || c >= (int)sets.size()) c = c < 1 ? 0 : (int)sets.size() - 1;
+		bool last_of_change = i + 1 == log->a.size() || (int)log->a[i + 1].getd("change") != c;
+		const JV &chg = c >= 1 ? changes->a[c - 1] : JV();
+		bool acknowledged = c >= 1 && chg.getb("applied") && last_of_change;
+		acc.crash_points++; acc.ops[e.gets("op").substr(0, e.gets("op").find(':'))]++;
+		std::string what = ctx + ", crash after file-system call " + std::to_string((int)e.getd("call")) + " (" + e.gets("op") + ") of password change " + std::to_string(c);
+		struct Img { std::string data; bool exists; std::string kind; };
+		std::vector<Img> imgs;
+		imgs.push_back({hexdec(e.gets("image")), e.getb("exists"), "completed calls are durable"});
+		const JV *torn = e.get("torn"); if (torn) for (auto &t : torn->a) { imgs.push_back({hexdec(t.s), true, "crash in the middle of this write (torn)"}); acc.torn++; }
+		imgs.push_back({hexdec(e.gets("dur_image")), e.getb("dur_exists"), "loss of power (only synced data survives)"}); acc.powerloss++;
+		for (auto &im : imgs) {
+			JV allowed = JV::arr();
+			bool torn_img = im.kind.find("torn") != std::string::npos, power = im.kind.find("power") != std::string::npos;
+			if (acknowledged && !torn_img && !power) allowed.push(c20_vec(probes, sets[(size_t)c]));
+			else { allowed.push(c20_vec(probes, sets[(size_t)(c >= 1 ? c - 1 : 0)])); allowed.push(c20_vec(probes, sets[(size_t)c])); }
+			std::string key = std::string(im.exists ? "1" : "0") + im.data + "|" + allowed.dump();
+			acc.images++;
+			if (verdict_cache.count(key)) continue;
+			std::string rule = power ? "file-after-power-loss-neither-old-nor-new" : (acknowledged && !torn_img ? "acknowledged-change-not-in-file" : "file-neither-old-nor-new");
+			Plan rp = c20_reload_plan(base, im.data, im.exists, probes, allowed, what + " [" + im.kind + "]", rule);
+			JV rr = run_once(rp); acc.reloads++;
+			acc.traces.insert(rr.gets("trace"));
+			verdict_cache[key] = sig_of(rr);
+			if (rr.getb("violated")) {
+				std::string sig = sig_of(rr);
+				JV r2 = run_once(rp);
+				JV v = JV::obj(); v.set("prop", JV::str(rr.gets("prop"))); v.set("rule", JV::str(rr.gets("rule"))); v.set("detail", JV::str(rr.gets("detail").substr(0, 1200)));
+				if (sig_of(r2) != sig || r2.gets("trace") != rr.gets("trace")) v.set("gate", JV::str("FAILED"));
+				else { rp.profile = "c20r:" + std::to_string(acc.reloads); v.set("replay", JV::str(write_replay(rp, rr, sig))); v.set("gate", JV::str("ok")); }
+				acc.viol.push(v);
+			}
+		}
+	}
+}
+
+static JV handle_c20(uint64_t seed, const JV &opts) {
+	Plan base = generate_plan("c20", seed, opts);
+	JV out = JV::obj(); out.set("seed", JV::str(std::to_string(seed))); out.set("nops", JV::num((double)base.ops.size()));
+	C20Acc acc; std::map<std::string, std::string> cache;
+	JV r0 = run_once(base);
+	acc.traces.insert(r0.gets("trace"));
+	const JV *st0 = r0.get("stats");
+	if (r0.getb("violated") || r0.has("harness_error")) {
+		JV v = JV::obj(); v.set("prop", JV::str(r0.gets("prop"))); v.set("rule", JV::str(r0.gets("rule"))); v.set("detail", JV::str(r0.gets("detail").substr(0, 1200)));
+		if (r0.has("harness_error")) out.set("harness_error", JV::str(r0.gets("harness_error")));
+		else { JV r2 = run_once(base); if (sig_of(r2) != sig_of(r0)) v.set("gate", JV::str("FAILED")); else { v.set("replay", JV::str(write_replay(base, r0, sig_of(r0)))); v.set("gate", JV::str("ok")); } acc.viol.push(v); }
+	} else {
+		c20_check_images(base, r0, "scenario " + std::to_string(seed) + ", no fault", acc, cache);
+		int ncalls = r0.get("extra") ? (int)r0.get("extra")->getd("fs_calls") : 0;
+		out.set("fs_calls", JV::num(ncalls));
+		const JV *ch = r0.get("extra")->get("changes"); out.set("changes", JV::num(ch ? (double)ch->a.size() : 0));
+		// every file-system call of the run fails in every way it can
+		for (int k = 1; k <= ncalls; k++) {
+			struct F { const char *kind; long arg; };
+			static const F faults[] = {{"eio", 0}, {"enospc", 0}, {"short", 1}, {"short", -2}, {"short", -1}};
+			for (auto &f : faults) {
+				Plan p = base;
+				p.hdr.put("fs_fault_at", JV::num(k)); p.hdr.put("fs_fault_kind", JV::str(f.kind));
+				p.hdr.put("fs_fault_arg", JV::num((double)f.arg));   // short writes: 1 byte, half (-2), all but one byte (-1) of what was asked for
+				JV r = run_once(p); acc.fault_runs++; acc.traces.insert(r.gets("trace"));
+				bool fired = r.get("extra") && r.get("extra")->getb("fs_fault_fired");
+				if (fired) acc.faults_fired++;
+				if (std::string(f.kind) == "short" && !fired) continue;   // not a write
+				std::string ctx = "scenario " + std::to_string(seed) + ", file-system call " + std::to_string(k) + " fails with " + f.kind + (std::string(f.kind) == "short" ? "(" + std::to_string(f.arg) + ")" : "");
+				if (r.getb("violated")) {
+					JV v = JV::obj(); v.set("prop", JV::str(r.gets("prop"))); v.set("rule", JV::str(r.gets("rule"))); v.set("detail", JV::str(ctx + ": " + r.gets("detail").substr(0, 1200)));
+					JV r2 = run_once(p);
+					if (sig_of(r2) != sig_of(r) || r2.gets("trace") != r.gets("trace")) v.set("gate", JV::str("FAILED"));
+					else { p.profile = "c20:" + std::string(f.kind) + std::to_string(k); v.set("replay", JV::str(write_replay(p, r, sig_of(r)))); v.set("gate", JV::str("ok")); }
+					acc.viol.push(v);
+					continue;
+				}
+				c20_check_images(base, r, ctx, acc, cache);
+			}
+		}
+	}
+	out.set("violations", acc.viol);
+	JV s2 = JV::obj(); s2.set("images", JV::num((double)acc.images)); s2.set("reloads", JV::num((double)acc.reloads)); s2.set("fault_runs", JV::num((double)acc.fault_runs)); s2.set("crash_points", JV::num((double)acc.crash_points));
+	s2.set("torn_images", JV::num((double)acc.torn)); s2.set("powerloss_images", JV::num((double)acc.powerloss)); s2.set("faults_fired", JV::num((double)acc.faults_fired)); s2.set("distinct_traces", JV::num((double)acc.traces.size()));
+	JV ops = JV::obj(); for (auto &kv : acc.ops) ops.set(kv.first, JV::num((double)kv.second)); s2.set("calls_by_kind", ops);
+	if (st0) { s2.set("vtime_ns", JV::num(st0->getd("vtime_ns"))); s2.set("msgs", JV::num(st0->getd("msgs"))); const JV *pr = st0->get("probes"); if (pr) s2.set("probes", *pr); }
+	out.set("stats", s2);
+	return out;
+}
+
 static int g_shrink_budget = 0;
 static bool still_fails(const Plan &p, const std::string &sig) {
 	if (g_shrink_budget <= 0) return false;
@@ -309,6 +452,10 @@ int main(int argc, char **argv) {
 				JV opts = JV::obj(); if (rest.find('{') != std::string::npos) json_parse(rest.substr(rest.find('{')), opts);
 				Plan p = generate_plan(profile, seed, opts);
 				JV r = handle(p, !opts.getb("noshrink"));
+				printf("%s\n", r.dump().c_str()); fflush(stdout);
+			} else if (cmd == "c20") {
+				unsigned long long seed = 0; is >> seed;
+				JV r = handle_c20(seed, JV::obj());
 				printf("%s\n", r.dump().c_str()); fflush(stdout);
 			} else if (cmd == "c15") {
 				// single-fault enumeration: scenario idx, allocation indices kfrom..kto (0 = the fault-free run that counts allocations)
